@@ -23,7 +23,7 @@ RPOOL = ['', '1', '11', 'a']      # adversarial cell values for the real-pandas 
 INFO = {
     'engine': 'crosshair-tool 0.0.110 + z3',
     'explanation': 'see level text',
-    'bounds': {'quick': {c: 'see precondition in harness/ch_c10.py' for c in CONDS}, 'thorough': {c: 'same conditions, longer per-condition budget' for c in CONDS}},
+    'bounds': {'quick': {c: 'see precondition in harness/ch_c10.py' for c in CONDS}, 'thorough': {c: 'same conditions with one more symbolic character per string, longer per-condition budget' for c in CONDS}},
     'outside': ['interaction order 4', '64-bit hash collisions', 'frames with more than 2 rows (row-wise rule)'],
     'assumptions': ['pandas replaced by the list-backed sympd stand-in (validated differentially)', 'xxhash replaced by an injective stand-in', 'SequenceConcatenation.__eq__ of crosshair 0.0.110 patched (see DESIGN 2.3)'],
     'job_timeout': {'quick': 400, 'thorough': 1500},
@@ -169,7 +169,7 @@ def run_job(job):
     if job['cond'] in ('real-frames', 'real-frames-4'):
         return run_real(job)
     fname = job['cond'] + ('_twin' if job.get('twin') else '')
-    r = chrun.run_condition('harness.ch_c10', fname, TIMEOUT[job['tier']], loader.REPO)
+    r = chrun.run_condition('harness.ch_c10', fname, TIMEOUT[job['tier']], loader.REPO, extra_env={'CH_EXTRA': '1' if job['tier'] == 'thorough' else '0'})
     loader.record_functions('outrank/core_ranking.py', ['compute_combined_features', 'prior_combinations_sample'])
     return chrun.job_result(job, r, fname)
 
